@@ -381,3 +381,409 @@ Proof.
   - destruct (Hstop _ _ _ H'); auto.
   - destruct (IH _ _ _ H') as [[<-|Hk]|[[<-|Hk]|[Hk|Hk]]]; simpl; auto.
 Qed.
+
+(* ------------------------------------------------------------------------------------------ *)
+(* the loop of the model = greedy + a sequence of Append events                                *)
+(* ------------------------------------------------------------------------------------------ *)
+Definition link_event (f n : nat) (alive : list nat) (ij : nat * nat) (ev : event) : Prop :=
+  exists k, nth_error alive (fst ij) = Some k /\ snd ij < n /\ ev = Append k (f, snd ij).
+
+Lemma dist_loop_spec fuel : forall M t f n alive trs added trs' added',
+  dist_loop fuel M t f n alive trs added = Ok (trs', added') ->
+  exists links evs,
+    greedy fuel M = Ok links /\ added' = rev (map snd links) ++ added /\
+    Forall2 (link_event f n alive) links evs /\ apply_events t trs evs = Ok trs'.
+Proof.
+  induction fuel as [|fuel IH]; intros M t f n alive trs added trs' added' H; cbn [dist_loop] in H; [discriminate|].
+  unfold greedy. cbn [greedyL]. unfold argmin in H.
+  destruct (argmin_cells (flat M)) as [[[i j] [q|]]|e]; [| |discriminate].
+  - destruct (nth_error alive i) as [k|] eqn:Ek; [|discriminate].
+    destruct (j <? n) eqn:Ej; [|discriminate]. apply Nat.ltb_lt in Ej.
+    destruct (apply_event t trs (Append k (f, j))) as [trs1|e] eqn:A; [|discriminate].
+    destruct (IH _ _ _ _ _ _ _ _ _ H) as (links & evs & G & Ha & F2 & Ap).
+    unfold greedy in G. rewrite flat_kill in G. rewrite G.
+    exists ((i, j) :: links), (Append k (f, j) :: evs). split; [reflexivity|]. split.
+    + rewrite Ha. simpl. rewrite <- app_assoc. reflexivity.
+    + split.
+      * constructor; [|exact F2]. exists k. simpl. auto.
+      * cbn [apply_events]. rewrite A. exact Ap.
+  - inversion H; subst. exists [], []. simpl. repeat split. constructor.
+Qed.
+
+Lemma dist_loop_total fuel : forall M t f n alive trs added,
+  (forall c, In c (flat M) -> ci c < length alive /\ cj c < n) ->
+  valid_idx alive trs -> flat M <> [] -> count_fin (flat M) < fuel ->
+  exists r, dist_loop fuel M t f n alive trs added = Ok r.
+Proof.
+  induction fuel as [|fuel IH]; intros M t f n alive trs added Hb V Hne Hc; [lia|]. cbn [dist_loop].
+  unfold argmin. destruct (argmin_cells_total _ Hne) as [c Hc0]. rewrite Hc0.
+  destruct c as [[i j] [q|]]; [|eauto].
+  apply argmin_cells_spec in Hc0. destruct Hc0 as [Hin _].
+  destruct (Hb _ Hin) as [Hi Hj]. unfold ci, cj in Hi, Hj. simpl in Hi, Hj.
+  destruct (nth_error alive i) as [k|] eqn:Ek; [|apply nth_error_None in Ek; lia].
+  destruct (j <? n) eqn:Ej; [|apply Nat.ltb_ge in Ej; lia].
+  assert (Hk : k < length trs) by (apply V; eapply nth_error_In; eauto).
+  destruct (nth_error trs k) as [tr|] eqn:Etr; [|apply nth_error_None in Etr; lia].
+  assert (exists trs1, apply_event t trs (Append k (f, j)) = Ok trs1) as [trs1 U]
+    by (simpl; eapply upd_total; eauto).
+  rewrite U. apply IH.
+  - intros c Hc'. rewrite flat_kill in Hc'. apply in_map_iff in Hc'. destruct Hc' as (c0 & <- & Hc0).
+    specialize (Hb _ Hc0). unfold killc. destruct ((ci c0 =? i) || (cj c0 =? j)); exact Hb.
+  - eapply valid_idx_ext; [exact V|]. eapply apply_event_ext. exact U.
+  - rewrite flat_kill. destruct (flat M); [congruence|discriminate].
+  - rewrite flat_kill.
+    assert (count_fin (map (killc i j) (flat M)) < count_fin (flat M)); [|lia].
+    apply (count_map_lt _ _ (i, j, Some q)); [apply killc_fin|exact Hin|reflexivity|].
+    unfold killc, ci. simpl. rewrite Nat.eqb_refl. reflexivity.
+Qed.
+
+(* unmatched droplets start new tracks, in index order *)
+Lemma add_new_spec t f js : forall added trs,
+  add_new t f js added trs =
+  trs ++ map (fun j => t_new (t, (f, j))) (filter (fun j => negb (mem_nat j added)) js).
+Proof.
+  induction js as [|j js IH]; intros added trs; simpl; [rewrite app_nil_r; reflexivity|].
+  rewrite IH. destruct (mem_nat j added); simpl; [reflexivity|]. rewrite <- app_assoc. reflexivity.
+Qed.
+
+Lemma apply_news t ds : forall trs,
+  apply_events t trs (map New ds) = Ok (trs ++ map (fun d => t_new (t, d)) ds).
+Proof.
+  induction ds as [|d ds IH]; intros trs; simpl; [rewrite app_nil_r; reflexivity|].
+  rewrite IH, <- app_assoc. reflexivity.
+Qed.
+
+Lemma mem_nat_in j l : mem_nat j l = true <-> In j l.
+Proof. apply mem_nat_b_in. Qed.
+
+(* points_prev *)
+Lemma lasts_spec trs alive : forall prev,
+  lasts trs alive = Ok prev ->
+  Forall2 (fun k a => exists tr, nth_error trs k = Some tr /\ t_last tr = a) alive prev.
+Proof.
+  induction alive as [|k alive IH]; intros prev H; simpl in H.
+  - inversion H. constructor.
+  - destruct (nth_error trs k) as [tr|] eqn:E; [|discriminate].
+    destruct (lasts trs alive) as [l|e]; [|discriminate]. inversion H; subst.
+    constructor; [eauto|apply IH; reflexivity].
+Qed.
+
+Lemma lasts_total trs alive : valid_idx alive trs -> exists prev, lasts trs alive = Ok prev.
+Proof.
+  induction alive as [|k alive IH]; intros V; simpl; [eauto|].
+  assert (Hk : k < length trs) by (apply V; left; reflexivity).
+  destruct (nth_error trs k) as [tr|] eqn:E; [|apply nth_error_None in E; lia].
+  destruct IH as [l ->]; [intros k' Hk'; apply V; right; exact Hk'|]. eauto.
+Qed.
+
+Lemma Forall2_length {A B} (P : A -> B -> Prop) l1 l2 : Forall2 P l1 l2 -> length l1 = length l2.
+Proof. induction 1; simpl; congruence. Qed.
+
+Lemma Forall2_nth {A B} (P : A -> B -> Prop) l1 l2 :
+  Forall2 P l1 l2 -> forall i x, nth_error l1 i = Some x -> exists y, nth_error l2 i = Some y /\ P x y.
+Proof.
+  induction 1 as [|a b l1 l2 Hab H IH]; intros i x Hi; [destruct i; discriminate|].
+  destruct i as [|i]; simpl in *; [inversion Hi; subst; eauto|eauto].
+Qed.
+
+Lemma Forall2_nth_r {A B} (P : A -> B -> Prop) l1 l2 :
+  Forall2 P l1 l2 -> forall i y, nth_error l2 i = Some y -> exists x, nth_error l1 i = Some x /\ P x y.
+Proof.
+  induction 1 as [|a b l1 l2 Hab H IH]; intros i y Hi; [destruct i; discriminate|].
+  destruct i as [|i]; simpl in *; [inversion Hi; subst; eauto|eauto].
+Qed.
+
+(* ------------------------------------------------------------------------------------------ *)
+(* droplet-level specification: closest remaining pair first                                    *)
+(* ------------------------------------------------------------------------------------------ *)
+(* W a b = Some q : distance q, within the cut-off;  None : beyond the cut-off.
+   R, C : the candidates (ends of the alive tracks / droplets of the new frame);
+   uR, uC : those already used. *)
+Inductive closest_first (W : did -> did -> option Q) (R C : list did)
+  : list did -> list did -> list (did * did) -> Prop :=
+| cf_stop uR uC :
+    (forall a b, In a R -> In b C -> ~ In a uR -> ~ In b uC -> W a b = None) ->
+    closest_first W R C uR uC []
+| cf_step uR uC a b q l :
+    In a R -> In b C -> ~ In a uR -> ~ In b uC -> W a b = Some q ->
+    (forall a' b' q', In a' R -> In b' C -> ~ In a' uR -> ~ In b' uC -> W a' b' = Some q' -> (q <= q')%Q) ->
+    closest_first W R C (a :: uR) (b :: uC) l ->
+    closest_first W R C uR uC ((a, b) :: l).
+
+Definition pick {A} (l : list A) (idx : list nat) : list A :=
+  flat_map (fun i => match nth_error l i with Some x => [x] | None => [] end) idx.
+Definition pick2 (R C : list did) (l : list (nat * nat)) : list (did * did) :=
+  flat_map (fun ij => match nth_error R (fst ij), nth_error C (snd ij) with
+                      | Some a, Some b => [(a, b)]
+                      | _, _ => []
+                      end) l.
+
+Lemma in_pick {A} (l : list A) idx x : In x (pick l idx) <-> exists i, In i idx /\ nth_error l i = Some x.
+Proof.
+  unfold pick. rewrite in_flat_map. split.
+  - intros (i & Hi & Hx). exists i. split; [exact Hi|].
+    destruct (nth_error l i) as [y|]; [destruct Hx as [->|[]]; reflexivity|destruct Hx].
+  - intros (i & Hi & Hx). exists i. split; [exact Hi|]. rewrite Hx. left. reflexivity.
+Qed.
+
+Lemma nodup_nth_inj {A} (l : list A) i j x :
+  NoDup l -> nth_error l i = Some x -> nth_error l j = Some x -> i = j.
+Proof.
+  intros Hn Hi Hj. rewrite NoDup_nth_error in Hn. apply Hn; [|congruence].
+  apply nth_error_Some. congruence.
+Qed.
+
+Lemma not_in_pick {A} (l : list A) idx i x :
+  NoDup l -> nth_error l i = Some x -> ~ In i idx -> ~ In x (pick l idx).
+Proof.
+  intros Hn Hi Hni Hin. apply in_pick in Hin. destruct Hin as (i' & Hi' & Hx).
+  assert (i = i') by (eapply nodup_nth_inj; eauto). subst. tauto.
+Qed.
+
+Lemma gsel_closest_first W R C L0 :
+  NoDup R -> NoDup C ->
+  (forall i j x, In (i, j, x) L0 <->
+                 exists a b, nth_error R i = Some a /\ nth_error C j = Some b /\ x = W a b) ->
+  forall Rk Ck l, gsel L0 Rk Ck l -> closest_first W R C (pick R Rk) (pick C Ck) (pick2 R C l).
+Proof.
+  intros HR HC HL Rk Ck l G.
+  induction G as [Rk Ck Hstop|Rk Ck i j q l Hin HRk HCk Hmin G IH].
+  - apply cf_stop. intros a b Ha Hb Hua Hub.
+    destruct (W a b) as [q|] eqn:E; [|reflexivity]. exfalso.
+    apply In_nth_error in Ha. destruct Ha as [i Hi]. apply In_nth_error in Hb. destruct Hb as [j Hj].
+    assert (Hc : In (i, j, Some q) L0) by (apply HL; exists a, b; auto).
+    destruct (Hstop _ _ _ Hc) as [Hk|Hk].
+    + apply Hua. apply in_pick. eauto.
+    + apply Hub. apply in_pick. eauto.
+  - apply HL in Hin. destruct Hin as (a & b & Ha & Hb & Hq).
+    assert (E2 : pick2 R C ((i, j) :: l) = (a, b) :: pick2 R C l).
+    { unfold pick2. simpl. rewrite Ha, Hb. reflexivity. }
+    assert (ER : pick R (i :: Rk) = a :: pick R Rk) by (unfold pick; simpl; rewrite Ha; reflexivity).
+    assert (EC : pick C (j :: Ck) = b :: pick C Ck) by (unfold pick; simpl; rewrite Hb; reflexivity).
+    rewrite E2. apply cf_step with (q := q).
+    + eapply nth_error_In; eauto.
+    + eapply nth_error_In; eauto.
+    + eapply not_in_pick; eauto.
+    + eapply not_in_pick; eauto.
+    + symmetry. exact Hq.
+    + intros a' b' q' Ha' Hb' Hua Hub Hw.
+      apply In_nth_error in Ha'. destruct Ha' as [i' Hi']. apply In_nth_error in Hb'. destruct Hb' as [j' Hj'].
+      apply (Hmin i' j' q').
+      * apply HL. exists a', b'. auto.
+      * intros Hk. apply Hua. apply in_pick. eauto.
+      * intros Hk. apply Hub. apply in_pick. eauto.
+    + rewrite <- ER, <- EC. exact IH.
+Qed.
+
+(* consequences of closest_first *)
+Lemma cf_in W R C uR uC l :
+  closest_first W R C uR uC l ->
+  forall a b, In (a, b) l -> In a R /\ In b C /\ exists q, W a b = Some q.
+Proof.
+  induction 1 as [|uR uC a b q l Ha Hb Hua Hub Hw Hmin Hc IH]; intros a' b' H'; [destruct H'|].
+  destruct H' as [E|H']; [inversion E; subst; eauto|eauto].
+Qed.
+
+Lemma cf_fst W R C uR uC l :
+  closest_first W R C uR uC l -> NoDup (map fst l) /\ forall a, In a (map fst l) -> ~ In a uR.
+Proof.
+  induction 1 as [|uR uC a b q l Ha Hb Hua Hub Hw Hmin Hc [IH1 IH2]]; simpl.
+  - split; [constructor|tauto].
+  - split.
+    + constructor; [|exact IH1]. intros Hi. apply (IH2 a Hi). left. reflexivity.
+    + intros a' [<-|Hi]; [exact Hua|]. intros Hk. apply (IH2 a' Hi). right. exact Hk.
+Qed.
+
+Lemma cf_snd W R C uR uC l :
+  closest_first W R C uR uC l -> NoDup (map snd l) /\ forall b, In b (map snd l) -> ~ In b uC.
+Proof.
+  induction 1 as [|uR uC a b q l Ha Hb Hua Hub Hw Hmin Hc [IH1 IH2]]; simpl.
+  - split; [constructor|tauto].
+  - split.
+    + constructor; [|exact IH1]. intros Hi. apply (IH2 b Hi). left. reflexivity.
+    + intros b' [<-|Hi]; [exact Hub|]. intros Hk. apply (IH2 b' Hi). right. exact Hk.
+Qed.
+
+Lemma cf_maximal W R C uR uC l :
+  closest_first W R C uR uC l ->
+  forall a b, In a R -> In b C -> ~ In a uR -> ~ In b uC ->
+              ~ In a (map fst l) -> ~ In b (map snd l) -> W a b = None.
+Proof.
+  induction 1 as [uR uC Hstop|uR uC a b q l Ha Hb Hua Hub Hw Hmin Hc IH];
+    intros a' b' Ha' Hb' Hua' Hub' Hna Hnb.
+  - apply Hstop; assumption.
+  - simpl in Hna, Hnb. apply IH; auto.
+    + intros [<-|Hk]; tauto.
+    + intros [<-|Hk]; tauto.
+Qed.
+
+(* with pairwise different finite distances the result is unique *)
+Definition distinct_weights (W : did -> did -> option Q) (R C : list did) : Prop :=
+  forall a b a' b' q q', In a R -> In b C -> In a' R -> In b' C ->
+                         W a b = Some q -> W a' b' = Some q' -> Qeq q q' -> a = a' /\ b = b'.
+
+Lemma cf_functional W R C :
+  distinct_weights W R C ->
+  forall uR uC l, closest_first W R C uR uC l ->
+  forall l', closest_first W R C uR uC l' -> l = l'.
+Proof.
+  intros Hd uR uC l H. induction H as [uR uC Hstop|uR uC a b q l Ha Hb Hua Hub Hw Hmin Hc IH];
+    intros l' H'.
+  - destruct H' as [uR uC Hstop'|uR uC a' b' q' l0 Ha' Hb' Hua' Hub' Hw' Hmin' Hc']; [reflexivity|].
+    rewrite (Hstop a' b') in Hw'; auto. discriminate.
+  - destruct H' as [uR uC Hstop'|uR uC a' b' q' l0 Ha' Hb' Hua' Hub' Hw' Hmin' Hc'].
+    + rewrite (Hstop' a b) in Hw; auto. discriminate.
+    + assert (Hqq : Qeq q q').
+      { apply Qle_antisym; [apply (Hmin a' b' q'); assumption|apply (Hmin' a b q); assumption]. }
+      destruct (Hd a b a' b' q q') as [E1 E2]; auto. subst a' b'.
+      f_equal. apply IH. exact Hc'.
+Qed.
+
+(* ------------------------------------------------------------------------------------------ *)
+(* one frame of the distance method                                                            *)
+(* ------------------------------------------------------------------------------------------ *)
+Lemma nth_error_frame_ids f n j : j < n -> nth_error (frame_ids f n) j = Some (f, j).
+Proof.
+  intros H. unfold frame_ids. rewrite nth_error_map.
+  rewrite (nth_error_nth' _ 0) by (rewrite seq_length; exact H). rewrite seq_nth by exact H. reflexivity.
+Qed.
+
+Lemma nth_error_frame_ids_inv f n j b : nth_error (frame_ids f n) j = Some b -> b = (f, j) /\ j < n.
+Proof.
+  intros H. assert (Hj : j < n).
+  { rewrite <- (frame_ids_length f n). apply nth_error_Some. congruence. }
+  rewrite nth_error_frame_ids in H by exact Hj. inversion H. auto.
+Qed.
+
+Section DistFrame.
+  Variable D : did -> did -> Q.
+  Variable md : option Q.
+
+  (* the weight the loop sees: the cdist entry, or inf beyond the cut-off *)
+  Definition Wc (a b : did) : option Q := cut md (D a b).
+
+  Definition mat (prev now : list did) : matrix :=
+    map (map (cut md)) (map (fun p => map (D p) now) prev).
+
+  Lemma in_flat_mat prev now i j x :
+    In (i, j, x) (flat (mat prev now)) <->
+    exists a b, nth_error prev i = Some a /\ nth_error now j = Some b /\ x = Wc a b.
+  Proof.
+    rewrite in_flat. unfold ci, cj, cval, mat. simpl. rewrite !nth_error_map. split.
+    - intros (row & Hr & Hx). destruct (nth_error prev i) as [a|]; [|discriminate].
+      simpl in Hr. inversion Hr; subst row. rewrite !nth_error_map in Hx.
+      destruct (nth_error now j) as [b|]; [|discriminate]. simpl in Hx. inversion Hx.
+      exists a, b. auto.
+    - intros (a & b & Ha & Hb & ->). rewrite Ha. simpl. eexists. split; [reflexivity|].
+      rewrite !nth_error_map, Hb. reflexivity.
+  Qed.
+
+  Lemma pick2_links f n alive prev : length alive = length prev ->
+    forall links evs, Forall2 (link_event f n alive) links evs ->
+    Forall2 (fun ab ev => exists i k, nth_error alive i = Some k /\ nth_error prev i = Some (fst ab) /\
+                                      ev = Append k (snd ab))
+            (pick2 prev (frame_ids f n) links) evs /\
+    map snd (pick2 prev (frame_ids f n) links) = map (fun ij => (f, snd ij)) links.
+  Proof.
+    intros Hlen links evs F. induction F as [|[i j] ev links evs (k & Hk & Hj & ->) F [IH1 IH2]].
+    - split; [constructor|reflexivity].
+    - simpl in Hk, Hj.
+      assert (Hi : i < length prev) by (rewrite <- Hlen; apply nth_error_Some; congruence).
+      destruct (nth_error prev i) as [a|] eqn:Ea; [|apply nth_error_None in Ea; lia].
+      unfold pick2. simpl. rewrite Ea, (nth_error_frame_ids f n j Hj). simpl. split.
+      + constructor; [|exact IH1]. exists i, k. simpl. auto.
+      + f_equal. exact IH2.
+  Qed.
+
+  Lemma dist_frame_spec t f n alive trs trs' :
+    dist_frame D md t f n alive trs = Ok trs' ->
+    forall prev, lasts trs alive = Ok prev -> NoDup prev ->
+    exists links evsA news,
+      closest_first Wc prev (frame_ids f n) [] [] links /\
+      Forall2 (fun ab ev => exists i k, nth_error alive i = Some k /\ nth_error prev i = Some (fst ab) /\
+                                        ev = Append k (snd ab)) links evsA /\
+      (forall b, In b news <-> In b (frame_ids f n) /\ ~ In b (map snd links)) /\ NoDup news /\
+      apply_events t trs (evsA ++ map New news) = Ok trs'.
+  Proof.
+    intros H prev Hl Hnd. unfold dist_frame in H.
+    assert (Hlen : length alive = length prev) by (eapply Forall2_length, lasts_spec; eauto).
+    set (news_of := fun added : list nat =>
+                      map (fun j => (f, j)) (filter (fun j => negb (mem_nat j added)) (seq 0 n))).
+    assert (Hnews : forall added trs1, add_new t f (seq 0 n) added trs1
+                                       = trs1 ++ map (fun d => t_new (t, d)) (news_of added)).
+    { intros added trs1. rewrite add_new_spec. unfold news_of. rewrite map_map. reflexivity. }
+    assert (Hnews_in : forall added b, In b (news_of added) <-> In b (frame_ids f n) /\ ~ In (snd b) added).
+    { intros added b. unfold news_of. rewrite in_map_iff, in_frame_ids. split.
+      - intros (j & <- & Hj). apply filter_In in Hj. destruct Hj as [Hj Hm]. apply in_seq in Hj.
+        simpl. split; [lia|]. intros Hin. apply mem_nat_in in Hin. rewrite Hin in Hm. discriminate.
+      - intros [[Hf Hj] Hn]. exists (snd b). split; [destruct b; simpl in *; congruence|].
+        apply filter_In. split; [apply in_seq; lia|].
+        destruct (mem_nat (snd b) added) eqn:E; [apply mem_nat_in in E; tauto|reflexivity]. }
+    assert (Hnews_nd : forall added, NoDup (news_of added)).
+    { intros added. unfold news_of. apply FinFun.Injective_map_NoDup.
+      - intros x y E. inversion E. reflexivity.
+      - apply NoDup_filter, seq_NoDup. }
+    destruct ((match alive with [] => false | _ :: _ => true end) && (0 <? n)) eqn:G.
+    - apply andb_true_iff in G. destruct G as [Ga Gn]. apply Nat.ltb_lt in Gn.
+      rewrite Hl in H.
+      assert (Hc : cdist D prev (frame_ids f n) = Ok (map (fun p => map (D p) (frame_ids f n)) prev)).
+      { unfold cdist. destruct prev as [|p prev]; [destruct alive; [discriminate|simpl in Hlen; lia]|].
+        destruct (frame_ids f n) eqn:E; [|reflexivity].
+        apply (f_equal (@length _)) in E. rewrite frame_ids_length in E. simpl in E. lia. }
+      rewrite Hc in H. fold (mat prev (frame_ids f n)) in H.
+      destruct (dist_loop (S (count_finite (mat prev (frame_ids f n)))) (mat prev (frame_ids f n))
+                          t f n alive trs []) as [[trs1 added]|e] eqn:L; [|discriminate].
+      inversion H; subst trs'. clear H.
+      destruct (dist_loop_spec _ _ _ _ _ _ _ _ _ _ L) as (li & evs & Gr & Ha & F2 & Ap).
+      rewrite app_nil_r in Ha.
+      destruct (pick2_links f n alive prev Hlen li evs F2) as [P1 P2].
+      exists (pick2 prev (frame_ids f n) li), evs, (news_of added).
+      split; [|split; [exact P1|split; [|split; [apply Hnews_nd|]]]].
+      + apply greedy_gsel in Gr.
+        apply (gsel_closest_first Wc prev (frame_ids f n) (flat (mat prev (frame_ids f n))) Hnd
+                                  (frame_ids_nodup f n) (in_flat_mat prev (frame_ids f n)) [] [] li Gr).
+      + intros b. rewrite Hnews_in, P2. split; intros [Hb Hn]; (split; [exact Hb|]); intros Hin; apply Hn.
+        * apply in_map_iff in Hin. destruct Hin as (ij & <- & Hij). simpl. rewrite Ha, <- in_rev.
+          apply in_map. exact Hij.
+        * rewrite Ha, <- in_rev in Hin. apply in_map_iff in Hin. destruct Hin as (ij & E & Hij).
+          apply in_map_iff. exists ij. split; [|exact Hij]. apply in_frame_ids in Hb.
+          destruct b as [bf bj]. simpl in *. destruct Hb as [-> _]. congruence.
+      + rewrite (apply_events_app _ _ _ _ _ Ap). rewrite apply_news, Hnews. reflexivity.
+    - inversion H; subst trs'. clear H.
+      exists [], [], (news_of []). split; [|split; [constructor|split; [|split; [apply Hnews_nd|]]]].
+      + apply cf_stop. intros a b Ha Hb _ _. exfalso.
+        apply andb_false_iff in G. destruct G as [G|G].
+        * destruct alive; [|discriminate]. destruct prev; [destruct Ha|discriminate].
+        * apply Nat.ltb_ge in G. apply in_frame_ids in Hb. lia.
+      + intros b. rewrite Hnews_in. simpl. tauto.
+      + simpl. rewrite apply_news, Hnews. reflexivity.
+  Qed.
+
+  Lemma dist_frame_total t f n alive trs :
+    valid_idx alive trs -> exists trs', dist_frame D md t f n alive trs = Ok trs'.
+  Proof.
+    intros V. unfold dist_frame.
+    destruct ((match alive with [] => false | _ :: _ => true end) && (0 <? n)) eqn:G; [|eauto].
+    apply andb_true_iff in G. destruct G as [Ga Gn]. apply Nat.ltb_lt in Gn.
+    destruct (lasts_total trs alive V) as [prev Hl]. rewrite Hl.
+    assert (Hlen : length alive = length prev) by (eapply Forall2_length, lasts_spec; eauto).
+    assert (Hc : cdist D prev (frame_ids f n) = Ok (map (fun p => map (D p) (frame_ids f n)) prev)).
+    { unfold cdist. destruct prev as [|p prev]; [destruct alive; [discriminate|simpl in Hlen; lia]|].
+      destruct (frame_ids f n) eqn:E; [|reflexivity].
+      apply (f_equal (@length _)) in E. rewrite frame_ids_length in E. simpl in E. lia. }
+    rewrite Hc. fold (mat prev (frame_ids f n)).
+    destruct (dist_loop_total (S (count_finite (mat prev (frame_ids f n)))) (mat prev (frame_ids f n))
+                              t f n alive trs []) as [[trs1 added] ->]; [| | | |eauto].
+    - intros c Hc'. rewrite (cell_eta c) in Hc'. apply in_flat_mat in Hc'.
+      destruct Hc' as (a & b & Ha & Hb & _). split.
+      + rewrite Hlen. apply nth_error_Some. congruence.
+      + apply nth_error_frame_ids_inv in Hb. tauto.
+    - exact V.
+    - assert (Hin : In (0, 0, Wc (nth 0 prev (0, 0)) (f, 0)) (flat (mat prev (frame_ids f n)))).
+      { apply in_flat_mat. exists (nth 0 prev (0, 0)), (f, 0). split; [|split; [|reflexivity]].
+        - destruct prev; [destruct alive; [discriminate|simpl in Hlen; lia]|]. reflexivity.
+        - apply nth_error_frame_ids. exact Gn. }
+      intros E. rewrite E in Hin. destruct Hin.
+    - rewrite count_finite_flat. lia.
+  Qed.
+End DistFrame.
